@@ -106,7 +106,10 @@ CLAIMS: dict[str, tuple[str, str, str, str]] = {
         "source; xmini_no_html (Props/C04b.lean, from C10.xmini_provenance): with the html option off the modelled inline "
         "sub-parser (text, newline, escape, backticks, strikethrough, emphasis, autolink, html_inline, entity; regular "
         "expressions translated from the live pattern objects) emits no html_inline token, for every source, rule subset and "
-        "maxNesting. Likewise m_no_html (Props/C10f.lean) for block-level HTML in the block sub-parser with nine of the eleven rules. PARTIAL: for the rules outside the two sub-parsers 'html off => no html token and only vocabulary "
+        "maxNesting. Likewise m_no_html (Props/C10f.lean) for block-level HTML in the block sub-parser with nine of the eleven rules. full_no_html (Props/C04c.lean): end to end "
+        "for MarkdownIt.parse on the modelled sub-language (nine of eleven block rules, eleven of twelve inline rules incl. link and image, core chain; "
+        "tie `fullparse`) — with html off, whatever rules are enabled, no html_block token and no html_inline token below any inline token at any depth "
+        "of nested image descriptions. PARTIAL: for the rules outside the two sub-parsers 'html off => no html token and only vocabulary "
         "tags' is carried by T1 + its dynamic twin, not by a parser theorem; proper nesting of output tags is decided by the "
         "output lexer on the implementation (incl. a bounded-exhaustive delimiter sweep), not proved. Tie: "
         "renderer model vs real RendererHTML on generated streams/configurations, escapeHtml exhaustively per "
@@ -133,7 +136,8 @@ CLAIMS: dict[str, tuple[str, str, str, str]] = {
         "`inlinei`; the description of an image is parsed by a nested run of the whole inline parser and becomes the token's children) every "
         "link_open carries an href and every image a src — first attribute in both cases — that is empty or URL-safe ASCII with no dangerous "
         "scheme, for the tokens of the stream and of every image description nested in it to any depth (deep token predicate; same RefsOK "
-        "hypothesis). PARTIAL: for the reference block rule and linkify 'every href/src the parser stores went "
+        "hypothesis); full_hrefs (Props/C05e.lean): the same for the output of MarkdownIt.parse end to end on the modelled sub-language (through the inline "
+        "core rule and text_join, whose recursion over nested tokens keeps types and attributes: joinToks_deep; tie `fullparse`). PARTIAL: for the reference block rule and linkify 'every href/src the parser stores went "
         "through normalizeLink+validateLink' is not a "
         "theorem (oracle on tokens and rendered attributes + advisory AST scan); the "
         "linkifier clause cannot be run (dependency absent). Tie: encode per code point and on %xx strings, "
@@ -230,6 +234,9 @@ CLAIMS: dict[str, tuple[str, str, str, str]] = {
         "contract (silent and normal calls; every memo entry points forward; the scope stack is restored): ten of the twelve inline rules, for "
         "every source, rule subset, maxNesting, reference table and external functions; the two loops the code runs without a progress test "
         "(tokenize, parseLinkLabel) provably move forward (tie: `inlinel`, 2k/50k strings, 70% of them with links). "
+        "full_total (Props/C01k.lean): MarkdownIt.parse end to end on the modelled sub-language — normalize, line scan, block loop with nested containers, "
+        "the inline parser on every inline token with its nested runs, the second chain, text_join — returns for every source, rule subsets, html, maxNesting "
+        "(lean/MdIt/Pipeline.lean, tie `fullparse`: 2k/60k whole documents, all token fields, children included). "
         "image_total (Props/C01j.lean) adds the image rule, whose match runs the whole inline parser again on the description (a fresh state "
         "at level 0, then the second chain) and stores the result as children — a third open recursion, tied with the same depth budget: "
         "eleven of the twelve inline rules, everything the inline parser can run without the optional linkifier (tie: `inlinei`, 2.5k/60k "
@@ -293,7 +300,12 @@ CLAIMS: dict[str, tuple[str, str, str, str]] = {
         "html_inline and the html option, no text_special without escape or entity — by a generic engine (IAdds: a rule only appends "
         "tokens of its own kind; the loop and the second chain keep any token predicate closed under re-levelling and retyping). "
         "m_provenance / m_no_html / m_no_heading (Props/C10f.lean): nine of the eleven block rules — html_block tokens only with the rule and the html option on. "
-        "MISSING: provenance for the other rules and the "
+        "full_provenance (Props/C10g.lean) is the end-to-end statement for MarkdownIt.parse on the modelled sub-language (lean/MdIt/Pipeline.lean: core chain "
+        "normalize -> block -> inline -> text_join over nine of eleven block and eleven of twelve inline rules, tie `fullparse` on whole documents with "
+        "children): every top-level token has a type of the enabled block rules' vocabulary and every token below an inline token — at every depth of nested "
+        "image descriptions — a type of the enabled inline rules' vocabulary (no image without the image rule, no link_open without link and autolink, no "
+        "html_inline without the rule and the html option, ...), via full_types: the deep token engine (C05d imgChain_addsD) for any predicate on type names. "
+        "MISSING: provenance for the remaining rules (table, reference; linkify) and the "
         "conservative-extension clause need per-rule models: decided by the oracle (token kinds under random rule subsets; "
         "table/strikethrough on vs off on trigger-free inputs; definition options erase to the plain parse, env and HTML equal; "
         "switches issued while a render is in flight). Tie: Ruler/facade/options model of C11/C12 + route requests.",
